@@ -116,11 +116,11 @@ void AsyncSink::onLogBackEnd(const LogContent &content)
     if (content.text_len > 0) {
         append(content.text_ptr, content.text_len);
         append(' '); //! 追加空格
+    }
 
-        if (content.text_trunc) {
-            const char *tip = "(TRUNCATED) ";
-            append(tip, ::strlen(tip));
-        }
+    if (content.text_trunc) {
+        const char *tip = "(TRUNCATED) ";
+        append(tip, ::strlen(tip));
     }
 
     if (content.file_name != nullptr) {
